@@ -255,6 +255,16 @@ func (w *worker) judge(ci int, mode, typeName string, varType reflect.Type, val 
 	}
 	// a "cannot show" failure
 	if varType.Kind() != reflect.Interface {
+		// A composite static type can hold interface values (elements, fields, keys of interface
+		// type). For those the second clause of the property applies: the failure is allowed if
+		// the dynamic type of such a nested interface value is itself rejected statically here.
+		if val != nil {
+			if t, ok := w.rejectedNestedDynamic(ci, reflect.ValueOf(val), false, 0, new(int)); ok {
+				w.counts["failures_justified_by_static_rejection"]++
+				w.sigs[c.name+"|"+mode+"|nested-dynamic-reject|"+t.Kind().String()] = struct{}{}
+				return
+			}
+		}
 		w.viols = append(w.viols, where+": the show was accepted by the type checker but Run fails: "+o.msg)
 		return
 	}
@@ -268,11 +278,69 @@ func (w *worker) judge(ci int, mode, typeName string, varType reflect.Type, val 
 		return
 	}
 	if dv.accept {
+		if t, ok := w.rejectedNestedDynamic(ci, reflect.ValueOf(val), false, 0, new(int)); ok {
+			w.counts["failures_justified_by_static_rejection"]++
+			w.sigs[c.name+"|"+mode+"|nested-dynamic-reject|"+t.Kind().String()] = struct{}{}
+			return
+		}
 		w.viols = append(w.viols, where+fmt.Sprintf(": Run fails (%s) although a variable of the dynamic type %T is accepted statically in this context", o.msg, val))
 		return
 	}
 	w.counts["failures_justified_by_static_rejection"]++
 	w.sigs[c.name+"|"+mode+"|dynamic-reject"] = struct{}{}
+}
+
+// rejectedNestedDynamic walks v and reports the dynamic type of the first value held in a
+// nested interface (boxed is true right below an interface-typed position) whose type scriggo
+// rejects statically in context ci.
+func (w *worker) rejectedNestedDynamic(ci int, v reflect.Value, boxed bool, depth int, budget *int) (reflect.Type, bool) {
+	*budget++
+	if depth > 64 || *budget > 20000 || !v.IsValid() {
+		return nil, false
+	}
+	if boxed {
+		if sv, err := w.static(ci, v.Type()); err == nil && !sv.accept {
+			return v.Type(), true
+		}
+	}
+	switch v.Kind() {
+	case reflect.Interface:
+		if v.IsNil() {
+			return nil, false
+		}
+		return w.rejectedNestedDynamic(ci, v.Elem(), true, depth+1, budget)
+	case reflect.Pointer:
+		if v.IsNil() {
+			return nil, false
+		}
+		return w.rejectedNestedDynamic(ci, v.Elem(), false, depth+1, budget)
+	case reflect.Slice, reflect.Array:
+		for i := 0; i < v.Len(); i++ {
+			if t, ok := w.rejectedNestedDynamic(ci, v.Index(i), false, depth+1, budget); ok {
+				return t, true
+			}
+		}
+	case reflect.Map:
+		it := v.MapRange()
+		for it.Next() {
+			if t, ok := w.rejectedNestedDynamic(ci, it.Key(), false, depth+1, budget); ok {
+				return t, true
+			}
+			if t, ok := w.rejectedNestedDynamic(ci, it.Value(), false, depth+1, budget); ok {
+				return t, true
+			}
+		}
+	case reflect.Struct:
+		for i := 0; i < v.NumField(); i++ {
+			if v.Type().Field(i).PkgPath != "" {
+				continue
+			}
+			if t, ok := w.rejectedNestedDynamic(ci, v.Field(i), false, depth+1, budget); ok {
+				return t, true
+			}
+		}
+	}
+	return nil, false
 }
 
 // checkEntry checks one table entry in every context, static and boxed.
